@@ -217,6 +217,10 @@ PROPS = {
             'technique': 'same traces as C13; the laws of < (derived operators, strict order on all triples, compatibility '
                          'with equality, independence of operand kind and of non-content, vector order = lexicographical '
                          'extension of the observed element order) are judged over the recorded truth tables by Trace.tla'},
+    'C19': {'level': 'model_checking', 'units': {'quick': [], 'thorough': []}, 'kinds': set(), 'crash': never, 'filter': None,
+            'technique': 'spec/Readers.tla: interleavings of const operations enumerated by TLC (RaceFree at design level), '
+                         'replayed on real threads under ThreadSanitizer; write footprint of every const operation observed '
+                         'with mprotect; results judged against the sequential ones'},
     'C20': {'level': 'other', 'units': {'quick': [], 'thorough': []}, 'kinds': set(), 'crash': never, 'filter': None,
             'technique': 'operation alphabet of the TLA+ specification x configuration matrix; each cell (operation '
                          'group, parameter list, allocator kind) is instantiated on the real templates and compiled; '
@@ -455,6 +459,141 @@ def run_c15(tier, seed):
     return 1 if nviol else 0
 
 
+# ------------------------------------------------------------------------------------------------- C19: readers
+def reader_schedules(nthreads, k):
+    key = vlib.sha('readers', str(nthreads), str(k), vlib.spec_hash(['Readers.tla']))
+    d = os.path.join(vlib.BUILD, 'readers', key)
+    res = os.path.join(d, 'sched.json')
+    with vlib.Lock(d + '.lock'):
+        if os.path.exists(res):
+            return json.load(open(res))
+        vlib.copy_spec(d, ['Readers.tla'])
+        with open(os.path.join(d, 'Gen.cfg'), 'w') as f:
+            f.write('CONSTANTS\n Threads = %s\n K = %d\nINIT Init\nNEXT Next\nINVARIANT RaceFree\nINVARIANT EmitSchedule\n'
+                    'CHECK_DEADLOCK FALSE\n' % (vlib.tla_set(list(range(1, nthreads + 1))), k))
+        open(os.path.join(d, 't.ndjson'), 'w').write('{"e":"setup","size":1,"cap":1,"first":[1]}\n')
+        rc, out = vlib.run_tlc(d, 'Readers.tla', 'Gen.cfg', env={'TRACE': os.path.join(d, 't.ndjson')}, workers=4)
+        if rc != 0 or 'No error has been found' not in out:
+            open(os.path.join(d, 'tlc.out'), 'w').write(out)
+            raise vlib.Infra('Readers.tla generator failed: %s/tlc.out' % d)
+        sch = [json.loads(ln[len('<<"SCHED", "'):-3].replace('\\"', '"')) for ln in out.splitlines()
+               if ln.startswith('<<"SCHED", "')]
+        st, gen = vlib.tlc_stats(out)
+        r = {'schedules': sch, 'states': st, 'transitions': gen}
+        json.dump(r, open(res, 'w'))
+        return r
+
+
+def build_readers(kind):
+    src = os.path.join(vlib.HARNESS, 'readers.cpp')
+    flags = {'plain': ['g++', '-std=c++17', '-O1', '-g', '-pthread'],
+             'tsan': ['clang++', '-std=c++17', '-O1', '-g', '-fsanitize=thread', '-pthread']}[kind]
+    key = vlib.sha('readers', kind, open(src).read(), vlib.repo_hash())
+    d = os.path.join(vlib.BUILD, 'bin', key)
+    exe = os.path.join(d, 'readers')
+    with vlib.Lock(d + '.lock'):
+        if os.path.exists(exe):
+            return exe
+        os.makedirs(d, exist_ok=True)
+        r = subprocess.run(flags + ['-I', os.path.join(vlib.REPO, 'src'), src, '-o', exe], capture_output=True, text=True)
+        if r.returncode != 0:
+            raise vlib.Infra('readers driver does not compile: ' + r.stderr[-1500:])
+        return exe
+
+
+def run_c19(tier, seed):
+    t0 = time.time()
+    gen = reader_schedules(2, 2)
+    scheds = gen['schedules']
+    if tier == 'quick':
+        scheds = scheds[seed % 3::3]
+    plain, tsan = build_readers('plain'), build_readers('tsan')
+    d = os.path.join(vlib.BUILD, 'readers_run', vlib.sha(plain, tsan, tier, str(seed), vlib.spec_hash(['Readers.tla'])))
+    shutil.rmtree(d, ignore_errors=True)
+    os.makedirs(d)
+    sf = os.path.join(d, 'sched.txt')
+    with open(sf, 'w') as f:
+        for sc in scheds:
+            f.write(' '.join('%d %s' % (t, op) for t, op in sc) + '\n')
+    nthreads_free, rounds = (4, 300) if tier == 'quick' else (16, 2000)
+    jobs = []
+    for ty in ('fixed', 'varying', 'string'):
+        jobs.append((ty, 'prot', [plain, 'prot', ty, os.path.join(d, 'prot_%s.ndjson' % ty)]))
+        jobs.append((ty, 'sched', [tsan, 'sched', ty, sf, os.path.join(d, 'sched_%s.ndjson' % ty)]))
+        jobs.append((ty, 'free', [tsan, 'free', ty, str(nthreads_free), str(rounds), os.path.join(d, 'free_%s.ndjson' % ty)]))
+    env = dict(os.environ, TSAN_OPTIONS='halt_on_error=1:exitcode=66:report_signal_unsafe=0')
+    vlib.copy_spec(d, ['Readers.tla'])
+    with open(os.path.join(d, 'Trace.cfg'), 'w') as f:
+        f.write('CONSTANTS\n Threads = {1, 2}\n K = 2\nINIT TraceInit\nNEXT TraceNext\nPOSTCONDITION Consumed\nCHECK_DEADLOCK FALSE\n')
+
+    def one(job):
+        ty, mode, cmd = job
+        tr = cmd[-1]
+        r = subprocess.run(['timeout', '900'] + cmd, env=env, capture_output=True, text=True)
+        race = ''
+        if r.returncode == 66 or 'ThreadSanitizer' in r.stderr:
+            race = r.stderr[:3000]
+            with open(tr, 'a') as f:
+                f.write('{"e":"race","op":"tsan","arg":0,"res":0}\n')
+        elif r.returncode != 0:
+            with open(tr, 'a') as f:
+                f.write('{"e":"crash","op":"rc%d","arg":0,"res":0}\n' % r.returncode)
+        nlines = sum(1 for _ in open(tr))
+        wd = tr + '.d'
+        vlib.copy_spec(wd, ['Readers.tla'])
+        shutil.copy(os.path.join(d, 'Trace.cfg'), wd)
+        rc, out = vlib.run_tlc(wd, 'Readers.tla', 'Trace.cfg', env={'TRACE': tr})
+        if rc != 0 or 'No error has been found' not in out:
+            open(tr + '.tlc.out', 'w').write(out)
+            raise vlib.Infra('Readers.tla trace validation failed: %s.tlc.out' % tr)
+        vs = [json.loads(m.group(1).replace('\\"', '"')) for m in (vlib.VERDICT_RE.match(x) for x in out.splitlines()) if m]
+        st, _ = vlib.tlc_stats(out)
+        shutil.rmtree(wd, ignore_errors=True)
+        return ty, mode, vs, race, nlines, st
+    pool = ThreadPoolExecutor(9)
+    results = list(pool.map(one, jobs))
+    nviol = 0
+    os.makedirs(os.path.join(OUT, 'replay'), exist_ok=True)
+    states = gen['states']
+    events = 0
+    for ty, mode, vs, race, nlines, st in results:
+        states += st
+        events += nlines - 1
+        seen = set()
+        for v in vs:
+            sig = (v['n'], tuple(sorted(v['kinds'])))
+            nviol += 1
+            if sig in seen:
+                continue
+            seen.add(sig)
+            path = os.path.join(OUT, 'replay', 'C19_%s_%s_%s.json' % (ty, mode, v['n']))
+            json.dump({'property': 'C19', 'vector_type': ty, 'mode': mode, 'verdict': v,
+                       'schedule': scheds[v['h'] - 1] if mode == 'sched' and 0 < v['h'] <= len(scheds) else None,
+                       'thread_sanitizer_report': race}, open(path, 'w'), indent=1)
+            print('VIOLATION property=C19 replay=%s' % path)
+            print('   %s vector, %s leg, operation %s: %s' % (ty, mode, v['n'], sorted(v['kinds'])))
+    ev = {'property_id': 'C19', 'tier': tier, 'seed': seed, 'level': 'model_checking',
+          'coverage': {'states': states, 'transitions': gen['transitions'] + events,
+                       'traces_validated_against_impl': 3 * len(scheds) + 6 if nviol == 0 else 0,
+                       'samples': [scheds[0], scheds[len(scheds) // 2]],
+                       'interleavings_enumerated_by_tlc': len(gen['schedules']), 'interleavings_replayed_per_vector_type': len(scheds),
+                       'free_running': {'threads': nthreads_free, 'rounds': rounds}, 'events_judged': events,
+                       'explanation': 'Readers.tla: all interleavings of 2 threads x 2 const operations (8 operations) '
+                                      'enumerated by TLC and checked RaceFree at design level; each replayed on real threads '
+                                      'under ThreadSanitizer with relaxed-atomic turn taking on three vector types; every '
+                                      'operation also executed with the shared vector, its blocks and a shared element '
+                                      'mprotect()ed read-only; free-running threads; all results compared with the sequential ones'},
+          'assumptions': ['TSan is dynamic: races are reported only on executed accesses', 'std::string payloads live on the '
+                          'global heap and are not write-protected in the mprotect leg'],
+          'wall_s': round(time.time() - t0, 1), 'violations': nviol}
+    os.makedirs(os.path.join(VERIF, 'evidence'), exist_ok=True)
+    json.dump(ev, open(os.path.join(VERIF, 'evidence', 'C19.json'), 'w'), indent=1)
+    shutil.rmtree(d, ignore_errors=True)
+    print('C19 %s: %d interleavings x 3 vector types under TSan, mprotect leg, %d-thread free run; %d events judged, %d divergent, %.0f s'
+          % (tier, len(scheds), nthreads_free, events, nviol, time.time() - t0))
+    return 1 if nviol else 0
+
+
 # ------------------------------------------------------------------------------------------------- known findings
 def load_findings():
     p = os.path.join(VERIF, 'known_findings.json')
@@ -567,6 +706,8 @@ def run_property(pid, tier, seed):
         return run_c20(tier, seed)
     if pid == 'C15':
         return run_c15(tier, seed)
+    if pid == 'C19':
+        return run_c19(tier, seed)
     t0 = time.time()
     vlib.prune_cache()
     cfgs, akinds, _ = vlib.load_configs()
